@@ -2,9 +2,10 @@
    Imports only Mathlib-free model files. -/
 import Iodata.Drv.Conv
 import Iodata.Drv.Overlap
+import Iodata.Drv.Units
 
 def handlers : List (List String → Option String) :=
-  [Iodata.Drv.Conv.handle, Iodata.Drv.Overlap.handle]
+  [Iodata.Drv.Conv.handle, Iodata.Drv.Overlap.handle, Iodata.Drv.Units.handle]
 
 def respond (line : String) : String :=
   let ws := (line.splitOn " ").filter (· ≠ "")
